@@ -502,6 +502,17 @@ class _Parser(barectf_config_parse_common._Parser):
                 exc._append_ctx('`event-record` property')
                 _append_error_ctx(exc, '`$features` property')
 
+            try:
+                if def_clk_type is None:
+                    for ts_ft, ts_ft_ctx in ((pkt_beginning_ts_ft, '`packet` property: `beginning-timestamp-field-type` property'),
+                                             (pkt_end_ts_ft, '`packet` property: `end-timestamp-field-type` property'),
+                                             (ert_ts_ft, '`event-record` property: `timestamp-field-type` property')):
+                        if ts_ft is not None:
+                            raise _ConfigurationParseError(ts_ft_ctx,
+                                                           'Timestamp field type feature is enabled, but data stream type has no default clock type')
+            except _ConfigurationParseError as exc:
+                _append_error_ctx(exc, '`$features` property')
+
             pkt_features = barectf_config.DataStreamTypePacketFeatures(pkt_total_size_ft,
                                                                        pkt_content_size_ft,
                                                                        pkt_beginning_ts_ft,
